@@ -206,3 +206,50 @@ Section PrimEq.
   Definition with_temp (x : NCol) (Tp : nat -> F) : NCol :=
     mkNCol (n_u x) (n_v x) (n_vort x) (n_div x) Tp (n_gx x) (n_gy x) (n_sec2 x) (n_f x).
 End PrimEq.
+
+(** ** explicit_terms / implicit_terms assembled over abstract horizontal operators.
+    [W] indexes modal coefficients, [P] horizontal nodes; every operator acts
+    on one level.  [X p] is the nodal column at node [p]. Not executed. *)
+Section ModalAssembly.
+  Context {F : Type} {o : Ops F}.
+  Variables W P : Type.
+  Variable toM : (P -> F) -> W -> F.                       (* grid.to_modal *)
+  Variable divc curlc : (W -> F) -> (W -> F) -> W -> F.    (* div_cos_lat, curl_cos_lat, clip=False *)
+  Variable lap clip : (W -> F) -> W -> F.                  (* laplacian, clip_wavenumbers *)
+  Variable c : @PEcfg F.
+  Variable grav : F.                                       (* physics_specs.g *)
+
+  (** temperature: clip(to_modal(nodal total) + (-div_sec_lat(u T', v T'))) + (-H.div) *)
+  Definition temp_tendency_explicit (X : P -> NCol) (r : nat) (w : W) : F :=
+    clip (fun w' => toM (fun p => temp_nodal_total c true (X p) r) w'
+                    + - divc (toM (fun p => hsa_mu (X p) (n_temp (X p)) r))
+                             (toM (fun p => hsa_mv (X p) (n_temp (X p)) r)) w') w.
+  Definition temp_tendency_explicit_moist (m : Moist) (X : P -> NCol) (q : P -> nat -> F) (r : nat) (w : W) : F :=
+    clip (fun w' => toM (fun p => temp_nodal_total_moist c true m (X p) (q p) r) w'
+                    + - divc (toM (fun p => hsa_mu (X p) (n_temp (X p)) r))
+                             (toM (fun p => hsa_mv (X p) (n_temp (X p)) r)) w') w.
+  Definition temp_tendency_implicit (dv : nat -> W -> F) (r : nat) (w : W) : F :=
+    temp_implicit_col c (fun s => dv s w) r.
+
+  (** divergence: clip(-div(to_modal combined) - lap(to_modal kinetic) - g lap(orography) [+ humidity]) - lap(G T' + R T_ref lnps) *)
+  Definition div_tendency_explicit (X : P -> NCol) (rt : P -> nat -> F) (orog hum : W -> F) (r : nat) (w : W) : F :=
+    clip (fun w' => - divc (toM (fun p => combined_u c true (X p) (rt p) r))
+                           (toM (fun p => combined_v c true (X p) (rt p) r)) w'
+                    + - lap (toM (fun p => kinetic (X p) r)) w'
+                    + - grav * lap orog w'
+                    + hum w') w.
+  Definition div_tendency_implicit (Tm : nat -> W -> F) (lnps : W -> F) (r : nat) (w : W) : F :=
+    - lap (fun w' => div_implicit_potential c false (fun k => Tm k w') (lnps w') r) w.
+  (** divergence_tendency_due_to_humidity *)
+  Definition humidity_div_modal (m : Moist) (X : P -> NCol) (q gqx gqy : P -> nat -> F) (lapn : P -> F) (r : nat) (w : W) : F :=
+    - lap (toM (fun p => humidity_geo_nodal c false m (X p) (q p) r)) w
+    - toM (fun p => humidity_div_nodal c m (X p) (q p) (gqx p) (gqy p) (lapn p) r) w.
+
+  (** vorticity: clip(-curl(to_modal combined) [+ humidity]) + 0 *)
+  Definition vort_tendency_explicit (X : P -> NCol) (rt : P -> nat -> F) (hum : W -> F) (r : nat) (w : W) : F :=
+    clip (fun w' => - curlc (toM (fun p => combined_u c true (X p) (rt p) r))
+                            (toM (fun p => combined_v c true (X p) (rt p) r)) w'
+                    + hum w') w.
+  Definition humidity_curl_modal (m : Moist) (X : P -> NCol) (gqx gqy : P -> nat -> F) (r : nat) (w : W) : F :=
+    toM (fun p => humidity_curl_nodal c m (X p) (gqx p) (gqy p) r) w.
+End ModalAssembly.
